@@ -9,14 +9,14 @@ CLAIMS = {
    text='Bounded symbolic verification (binding audit): every acyclic path of decode_compact/flattened/general, expand_payload, decode_signature, DecodedHeaders, '
         'JwsValidationItem::verify and Jwk::check_alg is executed from the freshly dumped MIR with callee results unconstrained; z3 decides per requirement whether a '
         'feasible accepting path exists that does not bind signing input / signature / claims / alg / key to the bytes received. Candidates are replayed natively.'
-        " Also: the bundled ECDSA / EdDSA verifiers dispatch on input.alg only; JwsValidationItem::nonce/kid/alg/protected_header are the protected header's values; the general-serialization iterator is audited end-to-end with its helpers inlined. jwu::decode_b64 / encode_b64 (and their JSON forms) are exactly the strict Base64Url engine on the whole input; the scheme verifiers hand the whole decoded signature and the item's signing input to the primitive and build EC keys from the uncompressed point of both JWK coordinates.",
+        " Also: the bundled ECDSA / EdDSA verifiers dispatch on input.alg only; JwsValidationItem::nonce/kid/alg/protected_header are the protected header's values; the general-serialization iterator is audited end-to-end with its helpers inlined. jwu::decode_b64 / encode_b64 (and their JSON forms) are exactly the strict Base64Url engine on the whole input; the scheme verifiers hand the whole decoded signature and the item's signing input to the primitive and build EC keys from the uncompressed point of both JWK coordinates; create_message is header, '.', payload byte for byte; C03's verify_jws obligation re-used.",
    note='Trusted: rustc MIR dump, mir2smt and its core-function models, z3. Outside: serde parsing, the cryptography inside the verifiers, the multibase Base64Url engine itself.',
    technique=TECH_M, ref='DESIGN.md section 2 C01'),
  'C02': dict(
    text='Binding audit of validate / verify_signature_with_verifier / parse_jwk / verify_decoded_signature plus semantic evaluation of the validation-unit iterator '
         'chain of validate_decoded_credential over all unit outcomes, fail-fast modes and option presences (222 paths): accepted iff every unit passed, errors identify failures.'
-        ' Unit bodies audited: Credential::check_structure (base context first, base type, a subject), check_status (skip rules), check_revocation_bitmap_status.',
-   note='Trusted as C01. Includes the credential check_consistency audit (every member repeated inside vc agrees with its registered claim). Outside: JSON, crypto, bodies of check_structure / subject-holder / status units, resolve_method (C04).',
+        ' Unit bodies audited: Credential::check_structure (base context first, base type, a subject), check_status (skip rules), check_revocation_bitmap_status, check_subject_holder_relationship (subject id present and equal); C07 numeric-date obligation re-used.',
+   note='Trusted as C01. Includes the credential check_consistency audit (every member repeated inside vc agrees with its registered claim). Outside: JSON, crypto, resolve_method (C04, re-used for the scoped lookup).',
    technique=TECH_M, ref='DESIGN.md section 2 C02'),
  'C03': dict(
    text='Binding audit of JwtPresentationValidator::validate (all 100+ paths, closures inlined) and CoreDocument::verify_jws: accepted only with verify_jws on the holder '
@@ -31,7 +31,7 @@ CLAIMS = {
    note='Trusted as C01. Outside: JSON round trip, OrderedSet operations (C19), whole-document invariant beyond 2 entries per loop.',
    technique=TECH_M, ref='DESIGN.md section 2 C04'),
  'C05': dict(
-   text='M panic-reachability sweep: 67 parsing / decoding / validating entry points (incl. SD-JWT VC claim paths / token validation and the bundled Ed25519 / ES256 / ES256K verifiers) executed symbolically from MIR with callee results unconstrained; every MIR assert '
+   text='M panic-reachability sweep: 67 parsing / decoding / validating entry points (incl. SD-JWT VC claim paths / token validation, the claims constructors behind serialize_jwt, the bundled Ed25519 / ES256 / ES256K verifiers, and - in fault-schedule mode - the seven async SD-JWT VC functions) executed symbolically from MIR with callee results unconstrained; every MIR assert '
         '(overflow, index, slice), every unwrap/expect on a callee outcome and every panic-capable std callee (Index/IndexMut, split_at, copy_from_slice, Vec/String index operations, date-time arithmetic, RefCell, char boundaries of str/String byte offsets, conversions into fixed-size GenericArrays) whose precondition the path does not imply is a panic outcome; same-file helpers are inlined; reachable ones must be on the explicit contract list (each with the '
         'obligation establishing it). Complements the precise panic-freedom obligations of C12 (status list) and the K range-gate harnesses of C13.',
    note='Trusted as C01. Outside: panics inside non-inlined third-party callees (serde_json, did_url_parser beyond its cursor kernel, time, url, flate2, roaring), serde derives, async metadata fetching of SD-JWT VC.',
@@ -40,14 +40,14 @@ CLAIMS = {
    text='M: the legacy-format detector literal (read from the MIR) decided by z3 against the Base64Url text of every zlib default-compression stream (symbolic first deflate '
         'byte) and of its legacy double encoding; binding audit of the encode/decode pipeline, endpoint prefix handling, the document read-modify-write, the per-index '
         'revoke/unrevoke closures (lists <= 2) and revoked-iff-member in the status check.'
-        " Also: compress_zlib uses the default compression level on every path (the detector's premise); the revoke/unrevoke closures iterate the listed indices and touch the bitmap only per index; deserialize_slice / serialize_vec are exactly roaring's reader / writer on the whole data; decompress_zlib is the streaming decoder run to the end; the bitmap service is looked up by the whole status id; C02's status-unit obligation is re-used.",
+        " Also: compress_zlib uses the default compression level on every path (the detector's premise); the revoke/unrevoke closures iterate the listed indices and touch the bitmap only per index; deserialize_slice / serialize_vec are exactly roaring's reader / writer on the whole data; decompress_zlib is the streaming decoder run to the end; the bitmap service is looked up by the whole status id; C02's status-unit obligation is re-used; try_index_to_u32 is exactly u32::from_str and RevocationBitmapStatus::try_from scans every query pair.",
    note='Trusted as C01. Outside: roaring set semantics and serialisation, zlib, base64 codec; large sets are exercised only by the native confirmation battery.',
    technique='SMT query over the symbolic deflate byte (z3, bit-vector base64 model) + ' + TECH_M, ref='DESIGN.md section 2 C06'),
  'C07': dict(
    text='M: losslessness as wiring - for every credential/presentation field the claims location written by `new` equals the location read by try_into_*, '
         'duplicated members are omitted from vc/vp, dates pass through to_unix/from_unix; binding audit of both check_consistency functions (every duplicated '
         'member compared with its registered claim) and of nbf-else-iat through the year gate.'
-        " Also: optional members keep their presence (source forced to Some(_)), presentation option members are present exactly when the option is, a re-shaped value on the way back is a violation, equality of the credential / presentation types is the derived structural one, the claims types have no custom per-field deserialiser, and C03's validate obligation for the presentation dates.",
+        " Also: optional members keep their presence (source forced to Some(_)), presentation option members are present exactly when the option is, a re-shaped value on the way back is a violation, equality of the credential / presentation types is the derived structural one, the claims types have no custom per-field deserialiser, Url equality is whole text against whole text, and C03's validate obligation for the presentation dates.",
    note='Trusted as C01. Outside: the JSON text form (serde attributes), multi-subject credentials, to_unix/from_unix inverse (C13).',
    technique=TECH_M, ref='DESIGN.md section 2 C07'),
  'C08': dict(
@@ -63,13 +63,13 @@ CLAIMS = {
         'initial state with every storage-call result unconstrained - the fault schedule is a set of symbolic variables and every subset of failing calls is a path. '
         'Success only with method + key + key id in place; every plain error undoes key generation / restores the document and key id; UndoOperationFailed only in '
         'the documented patterns; rollback completeness against what remove_method_and_scope destroys.'
-        ' Failures of the document insertion / method construction are in scope; an ignored clean-up outcome is a violation; C04 insert_method guard re-used.',
+        ' Failures of the document insertion / method construction are in scope; an ignored clean-up outcome is a violation; C04 insert_method guard and remove_method_and_scope re-used.',
    note='Trusted as C01; awaited futures complete on first poll (no interleaving inside join!). Outside: real stores (C15), non-storage failures, insert/remove_method themselves (C04).',
    technique='MIR-to-SMT symbolic execution of the compiled async state machines (fault schedule as symbolic callee outcomes, z3 path feasibility)', ref='DESIGN.md section 2 C09'),
  'C10': dict(
    text='M kernels: the five DID character classes equal the W3C/RFC 3986 ABNF sets for every Unicode scalar value; M audit: every constructor of the plain DID type '
         'passes check_validity, DID-URL split validates and clears parts, join/setters validate before mutating; K (thorough): local validators on 3 symbolic bytes.'
-        " M kernels: is_valid_url_segment = *(pct-encoded | P) for every printable-ASCII string of 1..5 bytes and every predicate; the third-party did_url_parser's method-id cursor for ids <= 3 bytes (known finding: escape at the end overruns). K: valid_method_id on every ASCII string of length 0..3 and valid_method_name on lengths 0, 3 against the full W3C ABNF (known finding: trailing colon). M: valid_method_id / valid_method_name as scanners on every printable-ASCII string of length 0..4 against the ABNF; derived Deserialize of CoreDID / DIDUrl produces a value only through the validating TryFrom.",
+        " M kernels: is_valid_url_segment = *(pct-encoded | P) for every printable-ASCII string of 1..5 bytes and every predicate; the third-party did_url_parser's method-id cursor for ids <= 3 bytes (known finding: escape at the end overruns). K: valid_method_id on every ASCII string of length 0..3 and valid_method_name on lengths 0, 3 against the full W3C ABNF (known finding: trailing colon). M: valid_method_id / valid_method_name as scanners on every printable-ASCII string of length 0..4 against the ABNF; derived Deserialize of CoreDID / DIDUrl produces a value only through the validating TryFrom; DIDJwk::from_str parses the whole text as a plain DID.",
    note='Trusted as C01 plus Kani/CBMC. Outside: the third-party did_url_parser on multi-position adversarial strings (its %XX index bug is described in DESIGN.md), did:jwk.',
    technique='Kani/CBMC bounded model checking of the compiled functions on short symbolic inputs + ' + TECH_M + '; Kani/CBMC harnesses for the loop-carrying validators', ref='DESIGN.md section 2 C10'),
  'C11': dict(
@@ -82,7 +82,7 @@ CLAIMS = {
    text='Bounded symbolic verification: StatusList2021::{set,get,len} translated from the freshly dumped MIR into SMT (arrays + bit-vectors) and '
         'decided by z3 (cvc5 cross-check) for a list of ANY length <= 2^60 bytes, every usize index and both values: panic freedom, Ok iff in range, '
         'read-after-write equals the bit-vector model for every other index; one-way revocation through MutStatusList and the credential. Counterexamples are replayed natively.'
-        ' Also: try_from_encoded_str = base64 -> gunzip -> read_to_end uncapped; check_status_with_status_list_2021 compares list id and purpose before reading the entry; StatusList2021Credential::update applies the caller function once and always stores the re-encoded list.',
+        ' Also: try_from_encoded_str = base64 -> gunzip -> read_to_end uncapped; check_status_with_status_list_2021 compares list id and purpose before reading the entry; StatusList2021Credential::update applies the caller function once and always stores the re-encoded list; into_inner replaces the subject as a whole.',
    note='Trusted: rustc MIR dump, the mir2smt translator and its models of the listed core functions, z3/cvc5. Outside: gzip+base64 encoding (uninterpreted codec pair), '
         'check_status_with_status_list_2021.',
    technique='MIR-to-SMT symbolic execution (path enumeration, z3 verdict per path); Kani/CBMC harnesses on the public API',
@@ -90,19 +90,19 @@ CLAIMS = {
  'C13': dict(
    text='K: range gate, unix round trip, order and checked arithmetic for all seconds in windows round both range ends and 0; M: every constructor (parse, serde, FromStr, '
         'checked_add/sub) routes through the range gate and none uses a panicking offset conversion.'
-        ' M kernel: Duration unit constructors = count x unit over all 2^32 counts; a missing validating serde conversion is a candidate confirmed natively; checked_add / checked_sub return None only when the date arithmetic or the range gate refused.',
+        ' M kernel: Duration unit constructors = count x unit over all 2^32 counts; a missing validating serde conversion is a candidate confirmed natively; checked_add / checked_sub return None only when the date arithmetic or the range gate refused; Display / Debug / String::from / Serialize are to_rfc3339.',
    note='Trusted as C01 plus Kani/CBMC. Outside: RFC 3339 text parser/formatter of the time crate, mid-range dates.',
    technique='Kani/CBMC over the compiled code in stated windows; ' + TECH_M, ref='DESIGN.md section 2 C13'),
  'C14': dict(
    text='M: StateMetadataDocument::unpack decided byte-precisely for inputs of every length (marker, version, encoding, 16-bit LE length, exact body slice, trailing bytes '
         'ignored, no panic); add_flags_to_message header bytes and 16-bit gate; rebasing closures rewrite only the placeholder / self id and are wired to the right fields.'
-        ' Also: DIDUrl / VerificationMethod / MethodRef / Service map and try_map and CoreDocumentData::try_map; the self-reference test compares whole identifiers; derived Serialize skips members only by is_none / is_empty; CoreDocument::try_map / map_unchecked forward the four functions in their roles.',
+        ' Also: DIDUrl / VerificationMethod / MethodRef / Service map and try_map and CoreDocumentData::try_map; the self-reference test compares whole identifiers; derived Serialize skips members only by is_none / is_empty; CoreDocument::try_map / map_unchecked forward the four functions in their roles; pack clears only the two ledger address fields; C04 gate obligations re-used.',
    note='Trusted as C01. Outside: JSON body.',
    technique='Kani/CBMC bounded model checking of the compiled functions on short symbolic inputs + ' + TECH_M, ref='DESIGN.md section 2 C14'),
  'C17': dict(
    text='M kernels: network-name character class == [a-z0-9] for every char and the 1..6 length gate; M audit: every constructor reaches try_from_core, which '
         'lower-cases, validates method == iota / 32-byte prefixed-hex tag component / network component and removes exactly the default network; component accessors recompose the method id.'
-        " K: validate_network_name on every ASCII string of length 0, 6, 7 (thorough: 1, 3). Infallible constructors return what parse accepted; C10's CoreDID gate obligations re-used; eq / ord / hash of IotaDID and CoreDID are the derived structural impls.",
+        " K: validate_network_name on every ASCII string of length 0, 6, 7 (thorough: 1, 3). Infallible constructors return what parse accepted; C10's CoreDID gate obligations re-used; eq / ord / hash of IotaDID and CoreDID are the derived structural impls; NetworkName::try_from stores what it validated; IotaDID deserialises only through TryFrom<CoreDID>.",
    note='Trusted as C01. Outside: to_lowercase / prefix_hex internals, the generic parser (C10), equality <=> (network, tag bytes): normal form, default network omitted and derived comparison are decided, the implication is argued.',
    technique='Kani/CBMC bounded model checking of the compiled functions on short symbolic inputs + ' + TECH_M, ref='DESIGN.md section 2 C17'),
  'C18': dict(
@@ -116,7 +116,7 @@ CLAIMS = {
    text='K: OrderedSet<u8> append / prepend / remove as one inductive step from every duplicate-free state of the concrete length in the harness name (append, remove <= 3; prepend <= 2) with '
         'arbitrary arguments against a list model, TryFrom<Vec>/FromIterator on 3 arbitrary elements; M: OneOrSet::new_set / map / try_map and OneOrMany::from<Vec> normalisation, '
         'OneOrSet array deserialisation through the duplicate-rejecting constructor plus non-emptiness, OrderedSet derived Deserialize through TryFrom<Vec>, and OrderedSet::change '
-        '(replace/update) restricted to order-preserving vector operations (binding audit; its full list semantics is out of CBMC reach: 20-30 minute caps at length 1); replace / update are exactly one change call with a key predicate; TryFrom<Vec> inserts element-wise through append; OneOrSet::append leaves the collection untouched on a refused duplicate; OneOrMany::from_iter normalises through From<Vec>.',
+        '(replace/update) restricted to order-preserving vector operations (binding audit; its full list semantics is out of CBMC reach: 20-30 minute caps at length 1); replace / update are exactly one change call with a key predicate; TryFrom<Vec> inserts element-wise through append; OneOrSet::append leaves the collection untouched on a refused duplicate; OneOrMany::from_iter normalises through From<Vec>; OrderedSet::remove / prepend keep the order of the rest; OneOrMany::push decides by emptiness.',
    note='Trusted as C01 plus Kani/CBMC. Outside: sets longer than the harness length, replace/update list semantics beyond the binding audit and the native battery, serde text forms, OneOrMany::push.',
    technique='Kani/CBMC bounded model checking of one inductive step per operation + ' + TECH_M, ref='DESIGN.md section 2 C19'),
  'C16': dict(
